@@ -360,10 +360,13 @@ func runC15(c *eng.Ctx) {
 			if pidx == len(rt.PanicVals) {
 				pidx = -1 // nil-pointer dereference
 			}
-			fault := rt.Fault{Ctor: run.Ctor, Nth: run.Nth, Kind: kind, PanicIdx: pidx}
+			fault := rt.Fault{Ctor: run.Ctor, Nth: run.Nth, Kind: kind, PanicIdx: pidx, ErrIdx: (ri + k/2) % len(rt.ErrShapes)}
 			fs := runFaulted(c, idx, s, m, ops, fault, run.Op)
 			positions++
 			c.R.Count("fault_positions", 1)
+			if kind == rt.FErr {
+				c.R.Count("fault_error_shape_"+rt.ErrShapes[fault.ErrIdx], 1)
+			}
 			c.R.Count(fmt.Sprintf("fault_kind_%d", kind), 1)
 			_ = fs
 		}
@@ -392,10 +395,9 @@ func runFaulted(c *eng.Ctx, idx int, s *Spec, m *Model, ops []Op, fault rt.Fault
 		}
 		switch fault.Kind {
 		case rt.FErr:
-			var se *rt.SentinelErr
 			if res.Err == nil {
-				fs = append(fs, Finding{"ctor-error-swallowed", feat + ":" + phase, where + ": the call succeeded although the constructor returned an error"})
-			} else if !errors.As(res.Err, &se) || se.Ctor != fault.Ctor || se.Nth != fault.Nth {
+				fs = append(fs, Finding{"ctor-error-swallowed", feat + ":" + phase + ":" + rt.ErrShapes[fault.ErrIdx%len(rt.ErrShapes)] + "-error", where + ": the call succeeded although the constructor returned an error (" + rt.ErrShapes[fault.ErrIdx%len(rt.ErrShapes)] + " error value)"})
+			} else if !rt.IsInjected(res.Err, fault.Ctor, fault.Nth) {
 				fs = append(fs, Finding{"ctor-error-not-wrapped", feat + ":" + phase, fmt.Sprintf("%s: the constructor's own error is not reachable with errors.As: %v", where, trimErr(res.Err))})
 			}
 		case rt.FPanic:
